@@ -1120,10 +1120,23 @@ class Engine:
             results.append(r)
             by_racer[i] = (cmd["types"][i] if "types" in cmd else t, r)
 
+        intrusion: list[Any] = []
+
+        async def intruder(pre: int) -> None:
+            for _ in range(pre):
+                await checkpoint()
+            during = 0 < len(intervals) + len(results) or clock[0] > 0
+            try:
+                intrusion.append(("ok", ctx.get_resource_nowait(T, name), during and len(results) < len(cmd["pre"])))
+            except Exception as e:
+                intrusion.append(("exc", e, during and len(results) < len(cmd["pre"])))
+
         async def call() -> None:
             async with create_task_group() as tg:
                 for i, pre in enumerate(cmd["pre"]):
                     tg.start_soon(racer, i, pre)
+                if cmd.get("intruder_pre") is not None:
+                    tg.start_soon(intruder, cmd["intruder_pre"])
 
         observed = await self.call_in(cid, call)
         mc = self.model.ctxs[cid]
@@ -1179,6 +1192,18 @@ class Engine:
             if later[0] != "ok" or (tag in self.objs and later[1] is not self.objs[tag]):
                 self.bad("race-async-factory-overlap" if len(distinct) > 1 else "singleton-different-object",
                          f"{cmd}: a lookup after the race returned {self.tagname(later[1]) if later[0] == 'ok' else describe_exc(later[1])}, the first racer got {tag}", **witness)
+            if intrusion:
+                from asphalt.core import AsyncResourceError
+
+                how, what, during = intrusion[0]
+                self.inc("races_with_a_synchronous_lookup_of_the_same_pair")
+                if during:
+                    self.inc("races_with_a_synchronous_lookup_while_the_generation_was_in_flight")
+                if how == "exc" and type(what) is not AsyncResourceError:
+                    self.bad("race-lookup-raised", f"{cmd}: a get_resource_nowait() of the pair made beside the racing lookups raised {describe_exc(what)}", **witness)
+                elif how == "ok" and (later[0] != "ok" or what is not later[1]):
+                    self.bad("singleton-different-object", f"{cmd}: a get_resource_nowait() of the pair made beside the racing lookups returned {safe(what)}, "
+                                                           f"a later lookup {self.tagname(later[1]) if later[0] == 'ok' else describe_exc(later[1])}", **witness)
             # whatever a racer was given for the pair it asked for is what that pair resolves to from then on
             for i, (ti, r) in sorted(by_racer.items()):
                 if r[0] != "ok":
@@ -1480,7 +1505,10 @@ class Engine:
                     "apis": [rng.choice(["async", "async", "nowait"]) if not f.is_async else "async" for _ in pre],
                     "types": [t] + [rng.choice(free) for _ in pre[1:]],
                     "yields": rng.randint(0, 3), "factory_async": f.is_async, "fid": f.fid,
-                    "fail_first": f.is_async and rng.random() < 0.3}
+                    "fail_first": f.is_async and rng.random() < 0.3,
+                    # while the asynchronous generation is in flight, some other code asks for the same pair through the synchronous
+                    # API: that call fails (AsyncResourceError) or, if the generation is over, returns its product; nothing else changes
+                    "intruder_pre": rng.randint(0, 6) if f.is_async and rng.random() < 0.5 else None}
         return {"op": "lookup", "cid": cid, "api": rng.choices(p["apis"], p.get("api_weights"))[0], "type": t, "name": nm,
                 "optional": rng.random() < 0.4, "yields": rng.randint(0, 2), "fail_factory": rng.random() < 0.08}
 
